@@ -123,7 +123,14 @@ IStep(c) ==
         /\ retok' = (e.ev = a.ev)
   /\ UNCHANGED text
 
-INext == \E c \in Calls(st) : IStep(c)
+(* one named action per call, so that TLC's coverage report shows that each of them is taken *)
+IGetChar == Len(hist) >= 0 /\ IStep(<<1>>)
+IGetPosition == Len(hist) >= 0 /\ IStep(<<2>>)
+ISetPosition == \E o \in st.saved : IStep(<<3, o>>)
+ISetBad == ~st.bad /\ IStep(<<4>>)
+ILiteral == Len(hist) >= 0 /\ \E c \in LitChars : IStep(<<5, c>>)
+ICharSet == Len(hist) >= 0 /\ \E cs \in CSets : IStep(<<6, cs>>)
+INext == IGetChar \/ IGetPosition \/ ISetPosition \/ ISetBad \/ ILiteral \/ ICharSet
 ISpec == IInit /\ [][INext]_ivars
 IView == <<text, st, is, isaved, retok>>
 IViewDepth == <<text, st, is, isaved, retok, Len(hist)>>
